@@ -2,6 +2,8 @@ package op
 
 import (
 	"fmt"
+	"slices"
+	"strings"
 
 	"github.com/berquerant/crd/errorx"
 	"github.com/berquerant/crd/logx"
@@ -149,6 +151,10 @@ func AllScales() []*Scale {
 		scales[i], _ = NewScale(k)
 		i++
 	}
+	// map iteration order changes from run to run
+	slices.SortFunc(scales, func(a, b *Scale) int {
+		return strings.Compare(a.Key.String(), b.Key.String())
+	})
 	return scales
 }
 
